@@ -8,6 +8,7 @@ import common, lbtool, owntool
 C02_KINDS = ('view-corrupt', 'free-while-view-live', 'content-not-intact')
 C03_KINDS = ('double-free', 'foreign-free', 'caller-memory-freed', 'caller-memory-written', 'freed-block-in-chain', 'private-copy-in-pool-block')
 KNOWN_TAG = 'D4-split-block'
+MODEL_VISIBLE = ('double-free', 'free-while-view-live', 'freed-block-in-chain', 'foreign-free', 'caller-memory-freed')
 
 def have_own_driver():
     p = subprocess.run([common.DRIVER, 'own'], stdin=subprocess.DEVNULL, stdout=subprocess.PIPE, stderr=subprocess.PIPE)
@@ -48,6 +49,8 @@ def analyse(ops, impl, own, model, spec, ledger):
         res['hist'][o.split()[0]] += 1
         if spec[i].startswith('X'):      # left the contract (should not happen in the valid stream): nothing is claimed after that
             stop = True; continue
+        own_i, _, node_dump = own[i].partition('%%')       # third section: per-node ownership fields (refer, block, origin)
+        own[i] = own_i
         ev = own[i].split('!!')[0]
         res['events'] += ev.count(' m') + ev.count(' f')
         probs = [p.strip() for p in own[i].split('!!', 1)[1].split(';')] if '!!' in own[i] else []
@@ -59,16 +62,32 @@ def analyse(ops, impl, own, model, spec, ledger):
         if known:
             for p in known: res['known'][p.split()[0]] += 1
             res['tainted'] += 1; stop = True     # memory of this sequence is corrupted by the known finding from here on
+            # the ledger model must exhibit the known finding at the same op, with the same events and the same problems
+            # (as far as a model without contents can see them)
+            if ledger is not None and i < len(ledger) and not impl[i].startswith('panic'):
+                led = ledger[i].partition('%%')[0]
+                lp = [p.strip() for p in led.split('!!', 1)[1].split(';')] if '!!' in led else []
+                a = [p for p in probs if p.split()[0] in MODEL_VISIBLE]; b = [p for p in lp if p.split()[0] in MODEL_VISIBLE]
+                res['ledger_compared'] += 1
+                if led.split('!!')[0].strip() != ev.strip() or (a != b and a):
+                    res['problems'].append((list(cur), i - start, 'ledger-differs', 'op=%s | impl=%s | model=%s' % (o, own[i][:300], led[:300])))
+                else:
+                    res['known_on_model'] = res.get('known_on_model', 0) + (1 if a else 0)
             continue
         # content of what a reader returns / of the readable bytes must equal the model's (poisoned frees make a premature free visible)
         if impl[i] != model[i]:
             res['problems'].append((list(cur), i - start, 'content-not-intact', 'op=%s | impl=%s | model=%s' % (o, impl[i][:300], model[i][:300])))
             stop = True; continue
-        if ledger is not None and i < len(ledger):
+        if ledger is not None and i < len(ledger) and not impl[i].startswith('panic'):
             res['ledger_compared'] += 1
-            if ledger[i].split('!!')[0].strip() != ev.strip():
-                res['problems'].append((list(cur), i - start, 'ledger-differs', 'op=%s | impl-events=%s | model-events=%s' % (o, ev.strip(), ledger[i][:300])))
+            led, _, led_dump = ledger[i].partition('%%')
+            if led.split('!!')[0].strip() != ev.strip() or '!!' in led:
+                res['problems'].append((list(cur), i - start, 'ledger-differs', 'op=%s | impl-events=%s | model-events=%s' % (o, ev.strip(), led[:300])))
                 stop = True; continue
+            if led_dump.strip() != node_dump.strip():
+                res['problems'].append((list(cur), i - start, 'ledger-differs', 'op=%s | impl-nodes=%s | model-nodes=%s' % (o, node_dump.strip()[:300], led_dump.strip()[:300])))
+                stop = True; continue
+            res['ledger_nodes'] = res.get('ledger_nodes', 0) + led_dump.count('/') // 2
         res['finals'].add(ev.strip() + '|' + impl[i].split(' ## ')[-1][:200])
     for s in lbtool.split_seqs(ops)[:2]:
         res['samples'].append(' ; '.join(s[:25]))
@@ -116,12 +135,12 @@ def check(rep, prop, kinds, modules):
         r = replay_ops(binary, [l for l in open(f).read().split('\n') if l and not l.startswith('#')], os.path.join(wd, 'corpus'))
         results.append(r)
     results += run_many(binary, wd, rep.seed, shards, seqs, nops, ['-big'] if rep.tier == 'thorough' else [])
-    known = collections.Counter(); hist = collections.Counter(); finals = set(); n = 0; tainted = 0; events = 0; ledger = 0
+    known = collections.Counter(); hist = collections.Counter(); finals = set(); n = 0; tainted = 0; events = 0; ledger = 0; lnodes = 0; kmodel = 0
     for r in results:
         problems += r['problems']; known.update(r['known']); hist.update(r['hist']); finals |= r['finals']
-        n += r['seqs']; tainted += r['tainted']; events += r['events']; ledger += r['ledger_compared']
+        n += r['seqs']; tainted += r['tainted']; events += r['events']; ledger += r['ledger_compared']; lnodes += r.get('ledger_nodes', 0); kmodel += r.get('known_on_model', 0)
     rep.cov.update(evaluations=n, distinct_nontrivial=len(finals), op_histogram=dict(hist), allocator_events=events,
-                   sequences_cut_at_known_finding=tainted, ledger_events_compared=ledger, traces_validated_against_impl=n,
+                   sequences_cut_at_known_finding=tainted, ledger_events_compared=ledger, ledger_node_records_compared=lnodes, known_finding_reproduced_on_model=kmodel, traces_validated_against_impl=n,
                    samples=results[-1]['samples'],
                    rule='contract-respecting LinkBuffer op sequences (generator of C01) executed on the real code with an allocator that never reuses and poisons freed blocks; '
                         'every zero-copy result is re-compared with its snapshot after every later op until its reader is released; every pool Free is checked (once, pool block, no live view, no chained node); '
